@@ -306,9 +306,13 @@ def mk_digest_challenge(rng, shape):
     elif shape == "nocharset":
         charset = False
     elif shape == "escaped":
-        k = rng.randrange(0, len(nonce) + 1)
-        nonce = nonce[:k] + rng.choice([b'"', b"\\"]) + nonce[k:]
+        for _ in range(rng.choice([1, 1, 2, 3])):
+            k = rng.randrange(0, len(nonce) + 1)
+            nonce = nonce[:k] + rng.choice([b'"', b"\\", b"\\\\", b'\\"', b",", b"'"]) + nonce[k:]
         realms = [rbytes(rng, 4, NONCE_CHARS)]
+        if rng.random() < 0.5:
+            k = rng.randrange(0, 5)
+            realms = [realms[0][:k] + rng.choice([b'"', b"\\", b'","', b"="]) + realms[0][k:]]
     elif shape == "extras":
         realms = [rbytes(rng, 6, NONCE_CHARS)]
         extra = [b"maxbuf=65536", b"stale=true", b"algorithm=md5-sess", b'cipher="rc4,des"']
@@ -345,7 +349,8 @@ def mk_bad_digest(rng, kind):
         return b64(rng.choice([b'realm="x",qop="auth",charset=utf-8', b'rspauth=0123456789abcdef', b'qop="auth"',
                                b"nonc=abc", b'Nonce="abc"']))
     if kind == "unterminated":
-        return b64(rng.choice([b'nonce="abc', b"nonce='abc", b'realm="x",nonce="ab,c', b'nonce="', b"nonce="]))
+        return b64(rng.choice([b'nonce="abc', b"nonce='abc", b'realm="x",nonce="ab,c', b'nonce="', b"nonce=",
+                               b'nonce="abc\\', b'nonce="abc\\"', b'nonce="\\', b'realm="a\\\\",nonce="b\\']))
     if kind == "junk":
         return b64(rbytes(rng, rng.randrange(1, 60), list(range(1, 256))))
     if kind == "nokeyeq":
@@ -453,7 +458,8 @@ def gen_scramx(rng, tier, variant=None, bad=None):
         sf = b"r=" + snonce + b",s=" + b64(salt) + b",i=" + rng.choice([b"x", b"", b"-", b"abc", b"+"])
     elif bad == "iwrap":
         sf = b"r=" + snonce + b",s=" + b64(salt) + b",i=" + rng.choice(
-            [b"4294967297", b"-4294967295", b" 1", b"+2", b"1x", b"18446744073709551617", b"3.5", b"0x10", b"\t2"])
+            [b"4294967297", b"-4294967295", b" 1", b"+2", b"1x", b"8589934594", b"3.5", b"0x10", b"\t2", b"\n\v\f\r 3",
+             b"+-1", b"12884901889"])  # strtol + (uint32_t) cast give a SMALL count (never one near 2^32: hours of HMACs)
     elif bad == "longsalt":
         salt = rbytes(rng, rng.choice([125, 126, 128, 129, 200]))
         sf = b"r=" + snonce + b",s=" + b64(salt) + b",i=1"
@@ -496,14 +502,12 @@ def gen_scraminit_edge(rng):
 def gen_digest(rng, op=None, shape=None, backslash_user=False):
     op = op or rng.choice(["digest", "digestx"])
     shape = shape or rng.choice(["std", "std", "norealm", "emptyrealm", "tworealms", "noqop", "extras", "qoplist",
-                                 "nocharset"])
+                                 "nocharset", "escaped", "escaped"])
     text, _ = mk_digest_challenge(rng, shape)
     node = rand_node(rng)
-    if backslash_user:
+    if backslash_user or rng.random() < 0.15:
         k = rng.randrange(0, len(node) + 1)
         node = node[:k] + b"\\" + node[k:]
-    else:
-        node = node.replace(b"\\", b"-")
     jid = rand_jid(rng, node=node)
     return "%s %s %s %s %s" % (op, hx(b64(text)), hx(jid), hx(rand_pass(rng)), hx(rbytes(rng, 6)))
 
@@ -597,11 +601,6 @@ def generate(rng, tier, override=0):
     for kind in BAD_DIGEST:
         for _ in range((2 if not override else 1) * scale):
             risky.append(gen_bad_digest(rng, kind))
-    # separate stream: RFC 2831 quoted-pair needed (a backslash in the user name, '"' or a backslash in
-    # nonce / realm of the challenge); failures here carry the kind `digest-quoted-pair`
-    for _ in range(3 * scale):
-        risky.append(gen_digest(rng, shape="escaped"))
-        risky.append(gen_digest(rng, backslash_user=True))
     for _ in range(4 * scale):
         a = rng.choice(["sha1", "sha256", "sha512"])
         risky.append("hi %s %s %s %d" % (a, hx(rbytes(rng, 8)), hx(rbytes(rng, rng.choice([125, 126, 128, 200, 4096]))), 1))
@@ -870,6 +869,8 @@ def parse_digest_directives_multi(s):
                     i += 1
             val = bytes(val)
         else:
+            if key in (b"realm", b"nonce", b"qop", b"cipher"):
+                raise Reject("RFC 2831 §2.1.1: %s takes a quoted-string" % key.decode())
             m = re.compile(TOKEN).match(s, i)
             if not m:
                 raise Reject("bad value")
